@@ -25,7 +25,7 @@ def plan(tier):
         return [("debug", 16, dict(nstr=2500, nfiles=40, maxfile=1 << 20)), ("release", 2, dict(nstr=2500, nfiles=20, maxfile=1 << 20))]
     return [("debug", 16, dict(nstr=60000, nfiles=190, maxfile=4 << 20)),
             ("release", 4, dict(nstr=20000, nfiles=40, maxfile=4 << 20, huge=True)),
-            ("miri", 8, dict(nstr=40, nfiles=4, maxfile=2000, small=True))]
+            ("miri", 8, dict(nstr=40, nfiles=4, maxfile=2000, small=True)), ("memcheck", 2, dict(nstr=400, nfiles=8, maxfile=40000, small=True))]
 
 
 def bitcrc(data, init):
